@@ -38,7 +38,7 @@ func corrupt(what string, line J) {
 	case "ids":
 		if what == "proc" {
 			if out, ok := line["out"].([]trigObs); ok && len(out) > 0 {
-				out[0].Ids = append([]int{NI + NT}, out[0].Ids...)
+				out[0].Ids = append([]int{9}, out[0].Ids...)
 			}
 		}
 	case "key":
